@@ -1,4 +1,6 @@
 import Norad.Lemmas.FontInfoUp
+import Norad.Lemmas.RobofabTie
+import Norad.Generated.RobofabConv
 import Norad.Spec.FontInfoUp
 import Norad.Props.C13
 /-!
@@ -246,7 +248,15 @@ theorem robofab_removed_from_lib (i : Input) (o : Output) (h1 : i.fmt = 1) (hl :
     (h : load i = .ok o) :
     (∀ k ∈ o.libKeys, k ∉ Spec.robofabKeys) ∧
     (i.reqLib = true → ∀ k ∈ i.libKeys, k ∉ Spec.robofabKeys → k ∈ o.libKeys) := by
-  have hk : Gen.robofabRemoved = Spec.robofabKeys := by decide +kernel
+  -- set-wise: the order of the `lib.remove` statements is not part of the statement
+  have hset : (∀ x ∈ Gen.robofabRemoved, x ∈ Spec.robofabKeys) ∧ (∀ x ∈ Spec.robofabKeys, x ∈ Gen.robofabRemoved) := by
+    decide +kernel
+  have hk : (fun k => !Gen.robofabRemoved.contains k) = (fun k => !Spec.robofabKeys.contains k) := by
+    funext k
+    have e : Gen.robofabRemoved.contains k = Spec.robofabKeys.contains k := by
+      rw [Bool.eq_iff_iff, List.contains_iff_mem, List.contains_iff_mem]
+      exact ⟨hset.1 k, hset.2 k⟩
+    rw [e]
   have hlib : o.libKeys = (if i.reqLib then i.libKeys else []).filter (fun k => !Spec.robofabKeys.contains k) := by
     unfold load at h
     cases hf : fromFile i.fmt i.attrs with
@@ -367,6 +377,123 @@ theorem acceptance_independent_of_other_files (i : Input) (f : Option String) (k
         simp only
         cases validated (applyHints Gen.hintRows h info) <;> rfl
     · rfl
+
+/-! ### source-level tie of `upconvert_ufov1_robofab_data` (tools/extract_robofab_conv.py)
+
+`Generated.RobofabConv.*` is the statement sequence of the function, regenerated on every run: per statement the
+robofab entry, the target and the conversion.  `applyConvRows_model` (Lemmas/RobofabTie.lean, stable) says that
+folding the model's table by the conversions of its rows is the model's `applyHints`. -/
+
+def setEq {α} (a b : List α) : Prop := (∀ x ∈ a, x ∈ b) ∧ (∀ x ∈ b, x ∈ a)
+instance {α} [DecidableEq α] (a b : List α) : Decidable (setEq a b) := by unfold setEq; infer_instance
+
+/-- the table translated from the source IS the model's table (rows, targets, conversions, in source order), the
+    feature statements are the model's, `validate` follows the last assignment, the keys removed from the lib are
+    the model's, an empty text is reported as absent -/
+theorem source_robofab_table_eq_model :
+    Generated.RobofabConv.hintTable = modelHintTable ∧
+    Generated.RobofabConv.featureTable = modelFeatureTable ∧
+    Generated.RobofabConv.hintValidateAfter = some Generated.RobofabConv.hintTable.length ∧
+    setEq Generated.RobofabConv.removed Gen.robofabRemoved ∧
+    Generated.RobofabConv.featuresNoneWhenEmpty = true ∧
+    (Generated.RobofabConv.hintTable.map (·.2.1)).Nodup := by decide +kernel
+
+/-- hence the fold `load` performs is the fold of the translated statements by their conversions, for every hint
+    dictionary and every font info -/
+theorem source_robofab_statements_are_applyHints (hint info : List (String × Val)) :
+    applyConvRows Generated.RobofabConv.hintTable hint info = applyHints Gen.hintRows hint info := by
+  rw [source_robofab_table_eq_model.1]
+  exact applyConvRows_model hint info
+
+/-- a successful format-1 load with hint data returns the font info the translated statements produce -/
+theorem source_robofab_load_runs_table (i : Input) (o : Output) (h : List (String × Val)) (h1 : i.fmt = 1)
+    (hl : i.hasLib = true) (hh : i.robofab.hint = some h) (hload : load i = .ok o) :
+    ∃ info, fromFile 1 i.attrs = .ok info ∧
+      o.info = applyConvRows Generated.RobofabConv.hintTable h info := by
+  unfold load at hload
+  cases hf : fromFile i.fmt i.attrs with
+  | error e => simp [hf] at hload
+  | ok info =>
+    simp only [hf] at hload
+    simp only [h1, hl, Bool.and_self, if_true, decide_true, hh] at hload
+    cases hs : validated (applyHints Gen.hintRows h info) with
+    | error e => simp [hs] at hload
+    | ok info' =>
+      simp only [hs, Except.ok.injEq] at hload
+      refine ⟨info, by rw [← h1]; exact hf, ?_⟩
+      rw [← hload, source_robofab_statements_are_applyHints]
+      exact (validated_ok hs).1
+
+/-- the specification's conversion of a translated row -/
+def specKindOfConv : RConv → Option Spec.HintKind
+  | .direct => some .copied
+  | .copyIfPresent => some .copied
+  | .flattenIfPresent => some .zonesFlattened
+  | _ => none
+
+def featureRoleOfConv : RConv → Option Nat
+  | .appendText => some 0
+  | .newlineThenBlocks => some 1
+  | .blockOrder => some 2
+  | _ => none
+
+/-- every translated row converts as the specification's table prescribes: the entry goes to the attribute
+    `Spec.hintAttrs` names, zone lists (and only they) are flattened, everything else is copied; every entry of the
+    specification has its statement; the entry types are the specification's; the three feature keys play the
+    specification's roles; the lib keys read are exactly the robofab keys, and they are the keys removed -/
+theorem source_robofab_conversions_are_spec :
+    (∀ row ∈ Generated.RobofabConv.hintTable,
+      lookup Spec.hintAttrs row.1 = some row.2.1 ∧ specKindOfConv row.2.2 = some (Spec.hintKindOf row.1)) ∧
+    (∀ p ∈ Spec.hintAttrs, ∃ row ∈ Generated.RobofabConv.hintTable, row.1 = p.1 ∧ row.2.1 = p.2) ∧
+    setEq (Generated.RobofabConv.hintTypes.map fun t => (t.1, t.2.2)) Spec.hintEntryTypes ∧
+    setEq (Generated.RobofabConv.featureTable.filterMap fun r => (featureRoleOfConv r.2.2).map fun n => (r.1, n))
+      Spec.featureKeyRoles ∧
+    (∀ row ∈ Generated.RobofabConv.featureTable, row.2.1 = "features") ∧
+    Generated.RobofabConv.featureFallbackOrder ∈ Spec.fallbackOrders ∧
+    setEq (Generated.RobofabConv.libKeys.map (·.1)) Spec.robofabKeys ∧
+    setEq Generated.RobofabConv.removed Spec.robofabKeys ∧
+    Generated.RobofabConv.hintLibKey = "org.robofab.postScriptHintData" := by decide +kernel
+
+/-- semantically: a present, well-shaped entry (zones for a zone list, anything but zones otherwise) leaves in its
+    attribute exactly the value the specification prescribes, whatever the other entries are -/
+theorem source_robofab_row_value_is_spec (hint acc : List (String × Val)) (v : Val) :
+    ∀ row ∈ Generated.RobofabConv.hintTable, lookup hint row.1 = some v →
+      ((Spec.hintKindOf row.1 = .zonesFlattened) ↔ (∃ l, v = .numss l)) →
+      getKey (convStep hint acc row) row.2.1 = some (Spec.hintValue (Spec.hintKindOf row.1) v) := by
+  intro row hrow hv hshape
+  have hk := (source_robofab_conversions_are_spec.1 row hrow).2
+  have hp := convStep_present hint acc row v hv
+  have hflat : flatten v = Spec.hintValue (Spec.hintKindOf row.1) v := by
+    cases hkind : Spec.hintKindOf row.1 with
+    | zonesFlattened =>
+      obtain ⟨l, rfl⟩ := hshape.1 hkind
+      rfl
+    | copied =>
+      have hn : ¬ ∃ l, v = .numss l := fun h => by
+        have := hshape.2 h; rw [hkind] at this; cases this
+      cases v <;> first | rfl | exact absurd ⟨_, rfl⟩ hn
+  cases hc : row.2.2 with
+  | direct => rw [← hflat]; exact hp.1 (Or.inl hc)
+  | flattenIfPresent => rw [← hflat]; exact hp.1 (Or.inr hc)
+  | copyIfPresent =>
+    rw [hc] at hk
+    simp only [specKindOfConv, Option.some.injEq] at hk
+    rw [← hk]
+    have : Spec.hintValue .copied v = v := by cases v <;> rfl
+    rw [this]; exact hp.2 hc
+  | appendText => rw [hc] at hk; cases hk
+  | newlineThenBlocks => rw [hc] at hk; cases hk
+  | blockOrder => rw [hc] at hk; cases hk
+
+-- non-vacuity: a zone list is flattened, a scalar is copied, an absent unconditional entry clears the attribute
+example : getKey (convStep [("blueValues", .numss [[1, 2], [3, 4]])] [] ("blueValues", "postscriptBlueValues", .flattenIfPresent))
+    "postscriptBlueValues" = some (.nums [1, 2, 3, 4]) := by decide +kernel
+example : ("blueValues", "postscriptBlueValues", RConv.flattenIfPresent) ∈ Generated.RobofabConv.hintTable := by
+  decide +kernel
+example : Spec.hintKindOf "blueValues" = .zonesFlattened ∧ Spec.hintKindOf "hStems" = .copied := by decide
+example : applyConvRows Generated.RobofabConv.hintTable [("forceBold", .bool true)]
+    [("postscriptBlueFuzz", .int 1), ("postscriptBlueValues", .nums [1, 2])] =
+    [("postscriptBlueValues", .nums [1, 2]), ("postscriptForceBold", .bool true)] := by decide +kernel
 
 /-! ### non-vacuity -/
 
